@@ -2480,6 +2480,24 @@ class Interp:
             for kind in ('HashSet', 'BTreeSet', 'HashMap', 'BTreeMap', 'IndexSet', 'IndexMap'):
                 if kind in target:
                     return ('mcall', recv, 'collect_into_' + kind, [])
+        if m == 'flatten' and not e['args'] and recv[0] == 'tuple' and recv[1]:
+            # `[Some(a), cond.then(|| b), Some(c)].into_iter().flatten()`: the elements that are present, in order - a list built by conditional pushes
+            ents = []
+            for x_ in recv[1]:
+                oc, ov = self.as_opt(x_)
+                if oc is None:
+                    ents = None
+                    break
+                if oc != FALSE:
+                    ents.append((oc, ov))
+            if ents is not None:
+                aid = self.fresh('acc')
+                self.accs[aid] = {'entries': [], 'fn': self.frame['fn'], 'name': '__flatten', 'line': e['line']}
+                base_ = self.pathcond()
+                for oc, ov in ents:
+                    c_ = oc if base_ == TRUE else (base_ if oc == TRUE else ('and', [base_, oc]))
+                    self.accs[aid]['entries'].append({'cond': c_, 'val': ov, 'loops': list(self.frame['loops']), 'line': e['line'], 'fn': self.frame['callee']})
+                return ('acc', aid)
         if m in self.IDENTITY and not e['args']:
             return recv
         if m in ('unwrap', 'expect'):
@@ -2504,7 +2522,8 @@ class Interp:
             return self.unwrap_or(mapped, self.apply(self.expr(args_nodes[0], env), []))
         if m in ('map', 'filter', 'filter_map', 'flat_map', 'any', 'all', 'find', 'for_each', 'position', 'inspect', 'and_then', 'unwrap_or_else',
                  'map_err', 'find_map', 'map_or', 'is_some_and', 'then', 'or_else', 'take_while', 'skip_while', 'max_by_key', 'min_by_key', 'try_for_each', 'map_while'):
-            if m in ('map', 'and_then', 'map_or', 'is_some_and') and self.is_optionish(recv, e['recv']):
+            if m in ('map', 'and_then', 'map_or', 'is_some_and', 'filter') and self.is_optionish(recv, e['recv']) and \
+                    not (m == 'filter' and recv[0] in ('star', 'acc', 'reorder', 'tuple')):
                 return self.opt_method(m, recv, args_nodes, env)
             if m in ('unwrap_or_else', 'or_else'):
                 d = self.apply(self.expr(args_nodes[0], env), [])
@@ -2684,6 +2703,11 @@ class Interp:
             if c2 is None:
                 c2, v2 = ('t', ('is_some', r)), ('unwrap', r)
             return ('opt', ('and', [c, c2]), v2)
+        if m == 'filter':
+            # Option::filter(pred): still that value, present only if the predicate holds for it
+            fn = self.expr(args_nodes[0], env)
+            r = self.call_value(fn, [v])
+            return ('opt', ('and', [c, self.as_cond(r)]), v)
         if m == 'map_or':
             d = self.expr(args_nodes[0], env)
             fn = self.expr(args_nodes[1], env)
